@@ -112,7 +112,7 @@ def loop_stubs(instrs):
         a, b = (q._index for q in node.qargs)  # noqa: SLF001
         return min(a, b), max(a, b)
 
-    def ev(self, p, results, column_index=0):
+    def ev(self, p, results, column_index=0, *xa, **xk):
         events.append(("S", int(column_index)))
 
     D.apply_single_qubit_gate, D.apply_two_qubit_gate, MPS.evaluate_observables = g1, g2, ev
